@@ -23,6 +23,7 @@ import (
 	"github.com/gorilla/websocket"
 
 	"github.com/0xReLogic/Helios/internal/config"
+	"gopkg.in/yaml.v3"
 	"github.com/0xReLogic/Helios/internal/loadbalancer"
 	"github.com/0xReLogic/Helios/internal/logging"
 )
@@ -139,6 +140,12 @@ func TestVerifDriver(t *testing.T) {
 			}
 		} else if len(w) == 3 && w[0] == "cfgval" {
 			res = cfgValues(w[1])
+		} else if len(w) == 2 && w[0] == "cfgfid" {
+			res = cfgFidelity(w[1])
+		} else if len(w) == 6 && w[0] == "aff" {
+			nb, _ := strconv.Atoi(w[2])
+			nreq, _ := strconv.Atoi(w[5])
+			res = frontAffinity(w[1], nb, w[3] == "1", w[4] == "1", nreq)
 		} else if len(w) == 2 && w[0] == "startup" {
 			res = startupKeepsConfig(w[1])
 		} else if len(w) == 2 && w[0] == "gs" {
@@ -751,6 +758,129 @@ func startupKeepsConfig(level string) string {
 		return "CONFIG-MUTATED section=" + what
 	}
 	return "config-unchanged level=" + logging.L().GetLevel().String()
+}
+
+// frontAffinity: `aff <strategy> <backends> <ids 0|1> <plugins 0|1> <requests>` — client affinity through the
+// handler cmd/helios builds (request-context middleware, optional plugin chain, balancer): one client
+// address on many connections (source ports), the same address attributed by X-Forwarded-For and by
+// X-Real-IP: each identity must be served by ONE backend while the pool does not change.
+func frontAffinity(strategy string, nb int, ids, pl bool, nreq int) string {
+	if nb < 1 || nb > 16 || nreq < 1 || nreq > 2000 {
+		return "bad-op"
+	}
+	var servers []*httptest.Server
+	defer func() {
+		for _, s := range servers {
+			s.Close()
+		}
+	}()
+	cfg := &config.Config{}
+	cfg.LoadBalancer.Strategy = strategy
+	for i := 0; i < nb; i++ {
+		name := fmt.Sprintf("a%d", i)
+		srv := httptest.NewServer(http.HandlerFunc(func(w http.ResponseWriter, r *http.Request) {
+			w.Header().Set("X-V-Served-By", name)
+			_, _ = w.Write([]byte(name))
+		}))
+		servers = append(servers, srv)
+		cfg.Backends = append(cfg.Backends, config.BackendConfig{Name: name, Address: srv.URL})
+	}
+	cfg.Logging.RequestID.Enabled = ids
+	cfg.Logging.Trace.Enabled = ids
+	if pl {
+		cfg.Plugins.Enabled = true
+		cfg.Plugins.Chain = []config.PluginConfig{{Name: "logging"}, {Name: "request-id"},
+			{Name: "headers", Config: map[string]interface{}{"set": map[string]interface{}{"X-Via": "helios"}}}}
+	}
+	l, err := loadbalancer.NewLoadBalancer(cfg)
+	if err != nil {
+		return "err:lb"
+	}
+	defer l.Stop()
+	h, err := buildHandler(cfg, l)
+	if err != nil {
+		return "err:handler:" + esc(err.Error())
+	}
+	groups := []struct {
+		label string
+		mk    func(i int) *http.Request
+	}{
+		{"direct", func(i int) *http.Request {
+			r := httptest.NewRequest("GET", "/p", nil)
+			r.RemoteAddr = fmt.Sprintf("10.0.0.9:%d", 20000+i*7)
+			return r
+		}},
+		{"direct6", func(i int) *http.Request {
+			r := httptest.NewRequest("GET", "/p", nil)
+			r.RemoteAddr = fmt.Sprintf("[2001:db8::9]:%d", 30000+i*3)
+			return r
+		}},
+		{"xff", func(i int) *http.Request {
+			r := httptest.NewRequest("GET", "/p", nil)
+			r.RemoteAddr = fmt.Sprintf("192.0.2.%d:%d", 1+i%200, 40000+i)
+			r.Header.Set("X-Forwarded-For", "203.0.113.77")
+			return r
+		}},
+		{"real", func(i int) *http.Request {
+			r := httptest.NewRequest("GET", "/p", nil)
+			r.RemoteAddr = fmt.Sprintf("192.0.2.%d:%d", 1+i%200, 50000+i)
+			r.Header.Set("X-Real-IP", "198.51.100.23")
+			return r
+		}},
+	}
+	var parts []string
+	for _, g := range groups {
+		served := map[string]bool{}
+		bad := 0
+		for i := 0; i < nreq; i++ {
+			rec := httptest.NewRecorder()
+			h.ServeHTTP(rec, g.mk(i))
+			if rec.Code != 200 {
+				bad++
+				continue
+			}
+			served[rec.Header().Get("X-V-Served-By")] = true
+		}
+		parts = append(parts, fmt.Sprintf("%s=%d", g.label, len(served)))
+		if bad > 0 {
+			parts = append(parts, fmt.Sprintf("%s-failed=%d", g.label, bad))
+		}
+	}
+	return "aff " + strings.Join(parts, " ")
+}
+
+// cfgFidelity: `cfgfid <file>` — what LoadConfig hands to the rest of the program is what the file says:
+// every number, string, flag, list entry and their order as a plain YAML decode of the same bytes
+// gives them (a default filled in, a list sorted or de-duplicated, an entry trimmed or dropped, a
+// file read only in part would each change what the balancer, the admin API or the plugins enforce)
+func cfgFidelity(path string) string {
+	raw, err := os.ReadFile(path)
+	if err != nil {
+		return "err:read"
+	}
+	var want config.Config
+	if err := yaml.Unmarshal(raw, &want); err != nil {
+		return "err:yaml"
+	}
+	got, err := config.LoadConfig(path)
+	if err != nil {
+		return "rejected:" + esc(err.Error())
+	}
+	if reflect.DeepEqual(*got, want) {
+		return "same"
+	}
+	var diff func(prefix string, a, b reflect.Value) string
+	diff = func(prefix string, a, b reflect.Value) string {
+		if a.Kind() == reflect.Struct {
+			for i := 0; i < a.NumField(); i++ {
+				if !reflect.DeepEqual(a.Field(i).Interface(), b.Field(i).Interface()) {
+					return diff(prefix+"."+a.Type().Field(i).Name, a.Field(i), b.Field(i))
+				}
+			}
+		}
+		return fmt.Sprintf("DIFF field=%s loaded=%s file=%s", strings.TrimPrefix(prefix, "."), esc(fmt.Sprintf("%v", a.Interface())), esc(fmt.Sprintf("%v", b.Interface())))
+	}
+	return diff("", reflect.ValueOf(*got), reflect.ValueOf(want))
 }
 
 // cfgValues: `cfgval <file>` — string values of a loaded configuration exactly as the file has them
